@@ -86,11 +86,12 @@ Definition lib_check_tr (x : item) (ts : list template) : Z * list template * li
       (c, ts ++ [(x, c)], tested)
   end.
 
-(** trace entries as (id of the first argument, id of the second argument) of the isomorphism test *)
-Definition id_trace := list (N * N).
-Definition lib_ids (x : item) (tested : list template) : id_trace := map (fun t => (it_id (fst t), it_id x)) tested.
+(** trace entries: the two ITEMS handed to the isomorphism test, in call order (the observable prints their ids and the verdict
+    of the test, so the verdict of every single call is compared with the implementation's) *)
+Definition id_trace := list (item * item).
+Definition lib_ids (x : item) (tested : list template) : id_trace := map (fun t => (fst t, x)) tested.
 Definition pos_ids (data : list item) (tr : list (nat * nat)) : id_trace :=
-  map (fun ij => (it_id (nth (fst ij) data dummy), it_id (nth (snd ij) data dummy))) tr.
+  map (fun ij => (nth (fst ij) data dummy, nth (snd ij) data dummy)) tr.
 
 Fixpoint cluster_tr (data : list item) (ts : list template) : list Z * list template * id_trace :=
   match data with
@@ -160,7 +161,8 @@ Inductive opx :=
 | OBackends (gc : bool)
 | OFitBad.      (* BatchCluster.fit with batch_size < 1: batch_dicts raises ValueError before anything is processed *)
 
-Definition tidtrace (tr : id_trace) : tok := tlist (tpair tN tN) tr.
+Definition tidtrace (iso : item -> item -> bool) (tr : id_trace) : tok :=
+  tlist (fun p => L [tN (it_id (fst p)); tN (it_id (snd p)); tbool (iso (fst p) (snd p))]) tr.
 
 Definition stepx (defs : list N) (mode : attr_mode) (pool : list item) (ts : list template) (o : opx)
   : tok * list template :=
@@ -169,11 +171,11 @@ Definition stepx (defs : list N) (mode : attr_mode) (pool : list item) (ts : lis
   | OBase (OGcIter idxs labelled) =>
       let data := map (pick pool) idxs in
       let '(clusters, r2c, tr) := gc_iterative_tr (item_iso labelled defs) mode data in
-      (L [tlist (tset tnat) clusters; tset (tpair tnat tnat) r2c; ttemplates ts; tidtrace (pos_ids data tr)], ts)
+      (L [tlist (tset tnat) clusters; tset (tpair tnat tnat) r2c; ttemplates ts; tidtrace (item_iso labelled defs) (pos_ids data tr)], ts)
   | OBase (OGcFit idxs) =>
       let data := map (pick pool) idxs in
       let '(cls, tr) := gc_fit_tr iso mode data in
-      (L [tlist (fun o => I (class_z o)) cls; ttemplates ts; tidtrace (pos_ids data tr)], ts)
+      (L [tlist (fun o => I (class_z o)) cls; ttemplates ts; tidtrace iso (pos_ids data tr)], ts)
   | OBase (OTemplates l) =>
       let ts' := map (fun ic => (pick pool (fst ic), snd ic)) l in
       (L [L []; ttemplates ts'; L []], ts')
@@ -181,13 +183,13 @@ Definition stepx (defs : list N) (mode : attr_mode) (pool : list item) (ts : lis
   | OBase (OLibCheck i) =>
       let x := pick pool i in
       let '(c, ts', tested) := lib_check_tr iso mode x ts in
-      (L [tclasses [c]; ttemplates ts'; tidtrace (lib_ids x tested)], ts')
+      (L [tclasses [c]; ttemplates ts'; tidtrace iso (lib_ids x tested)], ts')
   | OBase (OCluster idxs) =>
       let '(cs, ts', tr) := cluster_tr iso mode (map (pick pool) idxs) ts in
-      (L [tclasses cs; ttemplates ts'; tidtrace tr], ts')
+      (L [tclasses cs; ttemplates ts'; tidtrace iso tr], ts')
   | OBase (OFit idxs bs picks) =>
       let '(cs, ts', tr) := fit_tr iso mode (map (pick pool) idxs) ts bs picks in
-      (L [tclasses cs; ttemplates ts'; tidtrace tr], ts')
+      (L [tclasses cs; ttemplates ts'; tidtrace iso tr], ts')
   | OCtor gc nn nd b =>
       (match ctor_contract gc false nn nd b with
        | CtorOk => L [Strs.ok; tbackend b]
